@@ -7,5 +7,6 @@ import "github.com/tdakkota/docker-logql/internal/zzverif/vkit"
 func main() {
 	vkit.Main(map[string]vkit.Check{
 		"C04": {Run: c04Run, Replay: c04Replay},
+		"C03": {Run: c03Run, Replay: c03Replay},
 	})
 }
